@@ -11,7 +11,9 @@ EvOut(d) == [h |-> d.h, t |-> d.e.t, c |-> d.e.c, v |-> d.e.v, l |-> d.e.l, nuid
 Step(act, es, order, hm, ca) == [act |-> act, evs |-> LET d == Delivered(es, order, hm) IN [i \in 1..Len(d) |-> EvOut(d[i])],
                                  raised |-> Len(es), cache |-> ca]
 GInit == Init /\ hist = <<Step(lastAct, <<>>, horder, hmask, cache)>>
-GNext == nrecv < MaxRecv /\ Next /\ hist' = Append(hist, Step(lastAct', evs', horder', hmask', cache'))
+\* with gaps (MaxIdle > 0) empty frames may follow the last reception: the countdown expires (or not) behind it
+GNext == /\ nrecv < MaxRecv \/ MaxIdle > 0
+         /\ Next /\ nrecv' <= MaxRecv /\ hist' = Append(hist, Step(lastAct', evs', horder', hmask', cache'))
 GSpec == GInit /\ [][GNext]_gvars
 \* an invariant is evaluated once per distinct state (of the VIEW): one behaviour into every distinct state after MaxRecv receptions
 Dump == nrecv = MaxRecv => PrintT(<<"TR", ToJson(hist)>>)
